@@ -13,6 +13,7 @@ EXPLANATION = ('(1) the change list of a btree transaction is ordered with the S
                'keep the order given (the tree keeps the last of an equal-key run); (2) the iterator refreshes its tree and re-seeks whenever the column\'s '
                'last log record id differs from the one its state was built for, and every item fetched under an older record id is discarded before use; '
                '(3) point reads of the tree arm consult commit overlay, log overlay, file in that order (shared with C01).')
+EXPLANATION += ' Added: in-place results of tree edits are inspected; parked overlay entries are discarded on every repositioning; sentinel positions are answered without the tree cursor; recursion audit (btree descent is bounded by the tree height); a fresh table writes its header slot last; point reads of a btree column ignore hash-only options; thorough tier: a BTreeIterator cannot outlive its Db (compile-fail witness).'
 ASSUMPTIONS = ['DECLINED: key ordering on disk, depth uniformity, iteration results (value-level algorithms in btree/node.rs, btree/iter.rs)', 'unwind edges ignored']
 TRUSTED = ['rustc MIR construction (nightly)', 'pdb-facts driver', 'rule engine /verif/rules', 'anchor tables in props/C04.py']
 
